@@ -654,6 +654,7 @@ def facts_from_events(events, default_func) -> List["Fact"]:
 
     facts: List[Fact] = []
     alias: Dict[str, ast.AST] = {}
+    lastcall: Dict = {}
     for ev in events:
         if ev.kind == "assign" and isinstance(ev.node, ast.Assign):
             for t in ev.node.targets:
@@ -666,9 +667,33 @@ def facts_from_events(events, default_func) -> List["Fact"]:
                     del alias[k]
                 if isinstance(ev.node.value, ast.Name):
                     alias[ev.node.value.id] = tgt
+        if ev.kind == "call" and getattr(ev.target, "kind", "") == "repo" and len(ev.target.funcs) == 1 and ev.target.funcs[0] is not None:
+            lastcall[ev.target.funcs[0]] = ev
         if ev.kind == "test" and ev.extra is not None:
             fn = ev.frame[0] if ev.frame else default_func
             facts.append(Fact(ev.node, bool(ev.extra), fn, ev.defs))
+            cev = lastcall.get(fn) if fn is not default_func else None
+            if cev is not None and isinstance(cev.node, ast.Call) and not any(isinstance(a, ast.Starred) for a in cev.node.args):
+                # a test inside a helper that was walked as part of its caller: say it in the caller's terms too
+                # (`_is_request_line(self.requestparts)`: len(fields) == 3  ->  len(self.requestparts) == 3)
+                params = fn.params[1:] if (fn.cls is not None and fn.params[:1] in (["self"], ["cls"]) and isinstance(cev.node.func, ast.Attribute)
+                                           and dotted(cev.node.func.value) in ("self", "cls", "super()")) else list(fn.params)
+                bind = {p_: a_ for p_, a_ in zip(params, cev.node.args) if isinstance(a_, (ast.Attribute, ast.Name, ast.Subscript))}
+                bind.update({k.arg: k.value for k in cev.node.keywords if k.arg in params and isinstance(k.value, (ast.Attribute, ast.Name, ast.Subscript))})
+                stored = {x.id for x in ast.walk(fn.node) if isinstance(x, ast.Name) and isinstance(x.ctx, ast.Store)}
+                bind = {k: v for k, v in bind.items() if k not in stored}
+                usedp = {n.id for n in ast.walk(ev.node) if isinstance(n, ast.Name)} & set(bind)
+                if usedp:
+                    class _P(ast.NodeTransformer):
+                        def visit_Name(self, n):
+                            if n.id in bind and isinstance(n.ctx, ast.Load):
+                                a = copy.deepcopy(bind[n.id])
+                                a.ctx = ast.Load()
+                                return a
+                            return n
+
+                    node3 = clear_norm_cache(ast.fix_missing_locations(_P().visit(copy.deepcopy(ev.node))))
+                    facts.append(Fact(node3, bool(ev.extra), cev.frame[0] if cev.frame else default_func, {}))
             used = {n.id for n in ast.walk(ev.node) if isinstance(n, ast.Name)} & set(alias)
             if used:
                 amap = dict(alias)
@@ -697,7 +722,8 @@ def accept_paths(prog, resolver, concrete: ClassInfo) -> Optional[List[Tuple[Lis
         w = Walker(prog, resolver, fork_returns=True,
                    inline=lambda fn, t, d: t.bound_cls is not None or (fn.cls is not None and t.kind == "repo"
                                                                        and not t.by_name and len(t.funcs) == 1
-                                                                       and fn.name == "canhandlerequest"))
+                                                                       and fn.name == "canhandlerequest")
+                   or (d < 2 and fn.cls is None and t.kind == "repo" and not t.by_name and fn.module.name.startswith("pygopherd.protocols")))
         try:
             result = []
             for p in w.run(can, concrete):
